@@ -154,6 +154,24 @@ func main() {
 			rng := rand.New(rand.NewSource(seed*1000003 + int64(i)))
 			c := p.Gen(rng, tier, i)
 			c.Prop, c.Seed, c.Idx = name, seed, i
+			// a fatal runtime error (not a panic) kills the process: the runner learns from this marker which case was running
+			fmt.Fprintf(os.Stderr, "@case %d\n", i)
+			writeCase(w, c, safeExec(p, c))
+		}
+	case "printcase", "one": // the text of generated case <idx> without / with executing it (crash localisation)
+		name, tier := os.Args[2], os.Args[4]
+		seed, _ := strconv.ParseInt(os.Args[3], 10, 64)
+		i, _ := strconv.Atoi(os.Args[5])
+		p, ok := registry[name]
+		if !ok {
+			os.Exit(2)
+		}
+		rng := rand.New(rand.NewSource(seed*1000003 + int64(i)))
+		c := p.Gen(rng, tier, i)
+		c.Prop, c.Seed, c.Idx = name, seed, i
+		if os.Args[1] == "printcase" {
+			writeCase(w, c, nil)
+		} else {
 			writeCase(w, c, safeExec(p, c))
 		}
 	case "exec":
